@@ -70,6 +70,15 @@ func WithEventDefinitionInstanceBuilder(eventDefinitionInstanceBuilder event.IDe
 	}
 }
 
+// isExecutable reports whether a process is marked executable. A process
+// without the isExecutable attribute (hand-built models, the second and later
+// processes added through the definitions builder, plain XML) is not: the
+// generated accessor must not be called for it, it dereferences the missing
+// attribute.
+func isExecutable(process *schema.Process) bool {
+	return process.IsExecutableField != nil && *process.IsExecutableField
+}
+
 type Engine struct {
 	*EngineOptions
 }
@@ -89,8 +98,7 @@ func (engine *Engine) NewProcess(definitions *schema.Definitions, opts ...Option
 	executableCount := 0
 	for i := range *definitions.Processes() {
 		element := &(*definitions.Processes())[i]
-		able, ok := element.IsExecutable()
-		if !ok || !able {
+		if !isExecutable(element) {
 			continue
 		}
 		executableCount++
@@ -140,8 +148,7 @@ func (engine *Engine) NewProcessSet(definitions *schema.Definitions, opts ...Opt
 	waitings := make([]*schema.Process, 0)
 	for i := range *definitions.Processes() {
 		element := &(*definitions.Processes())[i]
-		able, ok := element.IsExecutable()
-		if !ok || !able {
+		if !isExecutable(element) {
 			waitings = append(waitings, element)
 		} else {
 			executes = append(executes, element)
